@@ -14,20 +14,20 @@ import (
 )
 
 type Contract struct {
-	Fn         *ssa.Function
-	Target     *ssa.Function
-	TargetName string
-	Sig        *types.Signature // for interface / external targets
-	Props      []string
-	Impls      []string
+	Fn          *ssa.Function
+	Target      *ssa.Function
+	TargetName  string
+	Sig         *types.Signature // for interface / external targets
+	Props       []string
+	Impls       []string
 	InlineKnown bool
-	Trusted    bool
-	Modifies   []string
-	Lemma      bool
-	Unroll     map[string]int
-	Thorough   bool
-	Preserves  []string
-	Pos        string
+	Trusted     bool
+	Modifies    []string
+	Lemma       bool
+	Unroll      map[string]int
+	Thorough    bool
+	Preserves   []string
+	Pos         string
 }
 
 type LoopAnn struct {
@@ -45,30 +45,30 @@ type Sweep struct {
 }
 
 type SpecDB struct {
-	contracts  map[string]*Contract // by target full name
-	units      []*Contract          // all contract + lemma functions
-	sweeps     []*Sweep
-	pure       map[string]bool
-	uninterp   map[string]bool
-	guards     map[string]map[int]int // struct type key -> field index -> mutex field index
-	invariants map[string][]*ssa.Function
-	loopAnns   map[string]*LoopAnn // "fn#ordinal"
-	inlineExts []string
-	pureExts   map[string]bool
-	nullable   map[string]bool
-	errors     []string
-	files      []string
-	lockCache  map[*ssa.Function]bool
-	tables     map[string]bool
-	effectFree map[string]bool
-	noblock    []*Sweep
-	fieldFns   map[string]*ssa.Function // field array name -> spec function standing for calls through that func-typed field
-	getters    map[string]bool
-	detFns     map[string]bool
-	stubs      map[string]*ssa.Function
+	contracts    map[string]*Contract // by target full name
+	units        []*Contract          // all contract + lemma functions
+	sweeps       []*Sweep
+	pure         map[string]bool
+	uninterp     map[string]bool
+	guards       map[string]map[int]int // struct type key -> field index -> mutex field index
+	invariants   map[string][]*ssa.Function
+	loopAnns     map[string]*LoopAnn // "fn#ordinal"
+	inlineExts   []string
+	pureExts     map[string]bool
+	nullable     map[string]bool
+	errors       []string
+	files        []string
+	lockCache    map[*ssa.Function]bool
+	tables       map[string]bool
+	effectFree   map[string]bool
+	noblock      []*Sweep
+	fieldFns     map[string]*ssa.Function // field array name -> spec function standing for calls through that func-typed field
+	getters      map[string]bool
+	detFns       map[string]bool
+	stubs        map[string]*ssa.Function
 	assumeAssert map[string]bool
-	dynCalls   map[string]*ssa.Function // "fn#k" -> spec function for the k-th dynamic call in fn
-	curProps   []string
+	dynCalls     map[string]*ssa.Function // "fn#k" -> spec function for the k-th dynamic call in fn
+	curProps     []string
 }
 
 func expandName(s string) string {
@@ -193,7 +193,7 @@ func buildSpecDB(prog *ssa.Program, pkgs []*packages.Package, allFns map[string]
 	db.inlineExts = []string{"github.com/fatedier/golib/errors", "github.com/samber/lo"}
 	seen := map[string]bool{}
 	packages.Visit(pkgs, nil, func(p *packages.Package) {
-		if !strings.HasPrefix(p.PkgPath, frpPrefix) || seen[p.PkgPath] {
+		if !(strings.HasPrefix(p.PkgPath, frpPrefix) || extContractPkgs[p.PkgPath]) || seen[p.PkgPath] {
 			return
 		}
 		seen[p.PkgPath] = true
